@@ -36,6 +36,12 @@ type c08Case struct {
 
 const c08Key = "dir/victim.bin"
 
+// c08OldPart: the accepted parts of the pending upload (part 2 is long, so that a rejected
+// re-upload of it is usually shorter than what is stored).
+func c08OldPart(n int) []byte {
+	return []byte(fmt.Sprintf("old part %d %s", n, strings.Repeat("=", n*150)))
+}
+
 var c08OldBody = []byte("the previously stored object - must survive every rejected upload")
 
 // verdicts
@@ -351,7 +357,7 @@ func c08Check(cs c08Case) (ds []disc) {
 		}
 		uploadID = d.UploadId
 		for _, n := range []int{1, 2} {
-			r := s3x.Do(st.Handler, &s3x.Req{Method: "PUT", Path: "/bk0/" + c08Key, Query: s3x.Q("partNumber", fmt.Sprint(n), "uploadId", uploadID), Body: []byte(fmt.Sprintf("old part %d", n))})
+			r := s3x.Do(st.Handler, &s3x.Req{Method: "PUT", Path: "/bk0/" + c08Key, Query: s3x.Q("partNumber", fmt.Sprint(n), "uploadId", uploadID), Body: c08OldPart(n)})
 			if r.Status != 200 {
 				panic("harness: cannot upload part: " + r.String())
 			}
@@ -379,6 +385,25 @@ func c08Check(cs c08Case) (ds []disc) {
 	if rejected {
 		if before != after {
 			fail("rejected-upload-changed-state", "answered %s but the stored state changed:\n--- before\n%s--- after\n%s", resp, before, after)
+		}
+		if uploadID != "" && cs.Kind == "part" {
+			// the listing of a pending upload shows numbers, sizes and ETags only; the bytes it
+			// holds become visible by completing it
+			lp := s3x.Do(st.Handler, &s3x.Req{Method: "GET", Path: "/bk0/" + c08Key, Query: s3x.Q("uploadId", uploadID)})
+			var d s3x.ListPartsDoc
+			lp.XML(&d)
+			var sb strings.Builder
+			sb.WriteString("<CompleteMultipartUpload>")
+			for _, p := range d.Parts {
+				fmt.Fprintf(&sb, "<Part><PartNumber>%d</PartNumber><ETag>%s</ETag></Part>", p.PartNumber, xmlEsc(p.ETag))
+			}
+			sb.WriteString("</CompleteMultipartUpload>")
+			cr := s3x.Do(st.Handler, &s3x.Req{Method: "POST", Path: "/bk0/" + c08Key, Query: s3x.Q("uploadId", uploadID), Body: []byte(sb.String())})
+			g := get(st, "bk0", c08Key)
+			want := append(append([]byte(nil), c08OldPart(1)...), c08OldPart(2)...)
+			if cr.Status != 200 || g.Status != 200 || !bytes.Equal(g.Body, want) {
+				fail("rejected-part-changed-pending-upload", "after the rejected part upload (%s) the pending upload was completed with the listed ETags (%d): the object has %d bytes (md5 %s), the accepted parts concatenate to %d bytes (md5 %s)", resp, cr.Status, len(g.Body), md5hex(g.Body), len(want), md5hex(want))
+			}
 		}
 		if verdict == mustAccept && resp.Panic == "" {
 			fail("valid-upload-refused", "a valid upload was refused: %s", resp)
